@@ -6,6 +6,7 @@ from . import common, tlc, tracecheck
 from .common import Run, rng
 from .hw import simulate, pmap, tour
 
+from amaranth.hdl import Fragment
 from amaranth_soc import wishbone
 from amaranth_soc.wishbone.bus import Feature
 
@@ -57,6 +58,13 @@ def build(cfg):
         ib = wishbone.Interface(addr_width=cfg["aw"], data_width=cfg["dw"],
                                 granularity=cfg["gran"] * ic["ratio"],
                                 features=featset(ic["feat"]), path=(f"intr{k}",))
+        if k >= 1 and (k + cfg["dw"] + len(cfg["intr"])) % 3 == 0:
+            # a user may elaborate (convert, simulate) an arbiter and THEN give it more initiators: the next
+            # elaboration is of the arbiter as it is then
+            try:
+                Fragment.get(arb, None)
+            except Exception:
+                pass
         arb.add(ib)
         intrs.append(ib)
     ins, outs = {}, {}
